@@ -44,6 +44,16 @@ PROGRAMS = [
     ("while_break", "?{:|‹?[X]}_", 3, "inputs[0] >= 0"),
     ("while_continue", "?{:|‹?[x]₀_}_", 3, "inputs[0] >= 0"),
     ("while_infinite_break", "{?[X]₀[X]}", 2),
+    ("while_infinite_continue_then_break", "?{›:?<[x]X}_", 3),
+    ("while_infinite_continue_twice", "?{›:?<[x]:?<[x]X}_", 4),
+    ("for_continue_then_break", "?(n?<[x]n?>[X])", 4),
+    ("while_cond_continue_then_break", "?{:|‹:?<[x]:?>[X]}_", 4, "inputs[0] >= 0"),
+    ("lam_return_in_else", "?λ?[₀|X]₀;†_", 3),
+    ("lam_return_in_nested_if", "?λ?[?[X]]₀;†_", 4),
+    ("lam_return_in_if_in_loop_in_lam", "?λ(?[λ?[X]₁;†_]);†_", 4),
+    ("fn_return_in_else", "@f:1|?[₀|X]₀;?@f;_", 3),
+    ("print_lazy_empty_and_twice", "?ɾ:,,", 1),
+    ("print_lazy_forced_before", "?ɾ:L_,", 1),
     ("lam_return_in_if", "?λ?[X]₀;†_", 3),
     ("lam_in_loop_return", "?(λX;†_)", 2),
     ("loop_in_lam_break", "?λ(?[X]);†_", 4),
